@@ -16,7 +16,9 @@ def run_programs(ctx, n, profile, oracle, label="prog", nontrivial=None, name="c
     model = lean_driver("Driver/Sys.lean", cases)
     agree = 0
     for case, mo in zip(cases, model):
+        ctx.running(case, "a logging program")
         real, rt = sysinterp.run_case(case)
+        ctx.running(None)
         oracle(ctx, case, real, rt)
         st = sysgen.stats(case["prog"])
         nt = nontrivial(case, real, st) if nontrivial else (st["depth"] >= 2 and len(real["offered"]) >= 3)
